@@ -1,6 +1,9 @@
 /* Contracts for raw cgroup-file readers (C10 robustness, C15 values, C03 kill preference):
  *   readMemcurrentAt / readSwapCurrentAt / readPidsCurrentAt: error or the integer on the first line; an EMPTY
  *       file (any number of lines >= 0 is possible) must not be indexed (undefined behaviour);
+ *   readMinMaxLowHighFromLines and readMemlowAt / readMemhighAt / readMemmaxAt / readMemminAt / readSwapMaxAt: a limit
+ *       file must be EXACTLY one line - anything else is an error result and line 0 is never indexed; the line
+ *       "max" is INT64_MAX, any other line is its number; the file opened is the one the accessor is named after;
  *   readMemoryOomGroupAt: true exactly when the file is the single line "1"; never indexes;
  *   readKillPreferenceAt: PREFER if either prefer attribute is present (checked before any avoid attribute),
  *       AVOID if only an avoid attribute is, NORMAL otherwise; an xattr probe error is an error result. */
@@ -17,7 +20,8 @@ maybe_vec_str_t Fs__readFileByLine__maybe_Fs_Fd(maybe_Fs_Fd fd)
   g_lines = r;
   return r;
 }
-str_t vec_str_t__elem(uint64_t vid, uint64_t i) { return (str_t)(77000 + i); }
+str_t g_first_line;     /* the text of line 0 (compared with "max" by the limit readers) */
+str_t vec_str_t__elem(uint64_t vid, uint64_t i) { return i == 0 ? g_first_line : (str_t)(77000 + i); }
 int64_t ext__stoll(str_t s) { return g_first_num; }      /* the number printed on that line (kernel prints decimal integers: ASSUMED) */
 vec_str_t vec_str_t__from_list1(str_t a) { vec_str_t v; v.n = 1; v.vid = 424242; return v; }
 _Bool vec_str_t__op_eq(vec_str_t a, vec_str_t b) { __CPROVER_assert(b.vid == 424242, "compared with the literal list {\"1\"}"); return g_single_one && a.n == 1; }
@@ -38,6 +42,27 @@ maybe__Bool Fs__readMemoryOomGroupAt(Fs_DirFd dirfd)
   __CPROVER_ensures(!g_lines.ok ? !__CPROVER_return_value.ok
                                 : (__CPROVER_return_value.ok && (__CPROVER_return_value.val != 0) == (g_single_one && g_lines.val.n == 1))) /*@C10,C15*/
   __CPROVER_ensures(ghost_exc == 0);
+
+/* limit files: memory.low / high / max / min / swap.max */
+#define LIMIT_VALUE (g_first_line == STR_max ? INT64_MAX : g_first_num)
+maybe_int64_t Fs__readMinMaxLowHighFromLines(vec_str_t lines)
+  __CPROVER_requires(ghost_exc == 0 && lines.n <= VEC_MAX)
+  __CPROVER_assigns()
+  /* exactly one line or an error; "max" is the largest value, anything else the printed number */ /*@C10,C15,C18*/
+  __CPROVER_ensures(lines.n != 1 ? !__CPROVER_return_value.ok : (__CPROVER_return_value.ok && __CPROVER_return_value.val == LIMIT_VALUE))
+  __CPROVER_ensures(ghost_exc == 0);
+#define LIMIT_READER_CONTRACT(file) \
+  __CPROVER_requires(ghost_exc == 0) \
+  __CPROVER_assigns(g_lines, g_opened) \
+  __CPROVER_ensures(g_opened == (file)) \
+  /* unreadable, empty or multi-line -> error result; otherwise the limit on the only line */ /*@C10,C15,C18*/ \
+  __CPROVER_ensures((!g_lines.ok || g_lines.val.n != 1) ? !__CPROVER_return_value.ok : (__CPROVER_return_value.ok && __CPROVER_return_value.val == LIMIT_VALUE)) \
+  __CPROVER_ensures(ghost_exc == 0)
+maybe_int64_t Fs__readMemlowAt(Fs_DirFd dirfd) LIMIT_READER_CONTRACT(STR_memory_low);
+maybe_int64_t Fs__readMemhighAt(Fs_DirFd dirfd) LIMIT_READER_CONTRACT(STR_memory_high);
+maybe_int64_t Fs__readMemmaxAt(Fs_DirFd dirfd) LIMIT_READER_CONTRACT(STR_memory_max);
+maybe_int64_t Fs__readMemminAt(Fs_DirFd dirfd) LIMIT_READER_CONTRACT(STR_memory_min);
+maybe_int64_t Fs__readSwapMaxAt(Fs_DirFd dirfd) LIMIT_READER_CONTRACT(STR_memory_swap_max);
 
 /* xattr probes */
 maybe__Bool g_tp, g_up, g_ta, g_ua;   /* trusted.oomd_prefer, user.oomd_prefer, trusted.oomd_avoid, user.oomd_avoid */
@@ -63,9 +88,15 @@ maybe_KillPreference Fs__readKillPreferenceAt(Fs_DirFd path)
   __CPROVER_ensures((__CPROVER_return_value.ok && (HAS(g_tp) || (g_tp.ok && HAS(g_up)))) ? __CPROVER_return_value.val == KillPreference__PREFER : 1)
   __CPROVER_ensures(ghost_exc == 0);
 #define CANARY __CPROVER_assert(0, "canary: contract precondition satisfiable and function exit reachable")
-#define HAVOC_FR() do { HAVOC(g_lines); HAVOC(g_first_num); HAVOC(g_single_one); HAVOC(g_tp); HAVOC(g_up); HAVOC(g_ta); HAVOC(g_ua); HAVOC(ghost_exc); } while (0)
+#define HAVOC_FR() do { HAVOC(g_lines); HAVOC(g_first_num); HAVOC(g_first_line); HAVOC(g_single_one); HAVOC(g_tp); HAVOC(g_up); HAVOC(g_ta); HAVOC(g_ua); HAVOC(ghost_exc); } while (0)
 void h_readMemcurrentAt(void) { Fs_DirFd d; HAVOC_FR(); Fs__readMemcurrentAt(d); CANARY; }
 void h_readSwapCurrentAt(void) { Fs_DirFd d; HAVOC_FR(); Fs__readSwapCurrentAt(d); CANARY; }
 void h_readPidsCurrentAt(void) { Fs_DirFd d; HAVOC_FR(); Fs__readPidsCurrentAt(d); CANARY; }
 void h_readMemoryOomGroupAt(void) { Fs_DirFd d; HAVOC_FR(); Fs__readMemoryOomGroupAt(d); CANARY; }
 void h_readKillPreferenceAt(void) { Fs_DirFd d; HAVOC_FR(); Fs__readKillPreferenceAt(d); CANARY; }
+void h_readMinMaxLowHighFromLines(void) { vec_str_t l; HAVOC_FR(); Fs__readMinMaxLowHighFromLines(l); CANARY; }
+void h_readMemlowAt(void) { Fs_DirFd d; HAVOC_FR(); Fs__readMemlowAt(d); CANARY; }
+void h_readMemhighAt(void) { Fs_DirFd d; HAVOC_FR(); Fs__readMemhighAt(d); CANARY; }
+void h_readMemmaxAt(void) { Fs_DirFd d; HAVOC_FR(); Fs__readMemmaxAt(d); CANARY; }
+void h_readMemminAt(void) { Fs_DirFd d; HAVOC_FR(); Fs__readMemminAt(d); CANARY; }
+void h_readSwapMaxAt(void) { Fs_DirFd d; HAVOC_FR(); Fs__readSwapMaxAt(d); CANARY; }
